@@ -15,7 +15,7 @@ def run(ctx: Ctx):
                        'exact ties in the measure: any order among tied features accepted']
     sc.design(ctx)
     ctx.notes['design_invariants'] = ['Inv_C14', 'Termination']
-    sc.select_cases(ctx, ['C14_'], 500, 12000)
+    sc.select_cases(ctx, ['C14_'], 500, 5000)
 
 
 def replay(ctx: Ctx, rep: dict):
